@@ -54,7 +54,9 @@ Inductive pev :=
 | PDeliverAB | PDeliverBA                    (* the oldest message in flight reaches the other side *)
 | PTimerA (t : tevent) | PTimerB (t : tevent)
 | PCut                                       (* the connection breaks: everything still in flight is lost (deliver a prefix first to lose only a suffix) *)
-| PRestartA | PRestartB.                     (* the engine is discarded and recreated on its (persistent) store *)
+| PRestartA | PRestartB                      (* the engine is discarded and recreated on its (persistent) store *)
+| PStopA | PStopB.                           (* the engine is stopped (Initiator.Stop / Acceptor.Stop): it sends its Logout and
+                                                waits for the answer; only a restart brings it back *)
 
 (* after a step of one side, what it wrote goes on the link (when there is one) *)
 Definition wrote (s : sess) : list omsg := rev (s_wire s).
@@ -99,6 +101,12 @@ Definition pstep (p : pair) (e : pev) : pair :=
       {| p_a := a; p_b := clear_logs (p_b p); p_ab := if p_up p then p_ab p ++ wrote a else []; p_ba := p_ba p; p_up := p_up p |}
   | PTimerB t =>
       let b := step (p_b p) (ETimeout t) in
+      {| p_a := clear_logs (p_a p); p_b := b; p_ab := p_ab p; p_ba := if p_up p then p_ba p ++ wrote b else []; p_up := p_up p |}
+  | PStopA =>
+      let a := step (p_a p) EStop in
+      {| p_a := a; p_b := clear_logs (p_b p); p_ab := if p_up p then p_ab p ++ wrote a else []; p_ba := p_ba p; p_up := p_up p |}
+  | PStopB =>
+      let b := step (p_b p) EStop in
       {| p_a := clear_logs (p_a p); p_b := b; p_ab := p_ab p; p_ba := if p_up p then p_ba p ++ wrote b else []; p_up := p_up p |}
   | PCut =>
       let a := step (p_a p) EInClosed in
